@@ -35,7 +35,11 @@ EXPLANATION = (
     "names for which the reader infers that kind; R5.7 class keywords "
     "output.py emits are accepted by classdef.get_keywords; R5.8 "
     "TypeVar/ParamSpec constructor names and keyword arguments the printer "
-    "writes are accepted by the reader.  Each is a necessary condition: "
+    "writes are accepted by the reader; R5.9 decisions the printer takes on "
+    "already-printed child text are content-safe (no tuple-unpacked unbounded "
+    "split, no substring test choosing the Callable form); R5.10 the "
+    "functional TypedDict form prints the class keywords output.py emits.  "
+    "Each is a necessary condition: "
     "breaking one makes some emitted stub fail to parse or parse to a "
     "different declaration.  The text-level details of every Visit* method "
     "and the parse-then-print fixed point itself are not decided.")
@@ -567,17 +571,21 @@ def r5_3(ctx):
         isinstance(n.value, ast.Call) and dotted(n.value.func) == "target.rsplit" \
         and len(n.targets[0].elts) == 2:
       base_var = dotted(n.targets[0].elts[1])
+  if base_var is None:
+    raise AnalysisError("matches_type: `_, base = target.rsplit('.', 1)` not found")
   arm = None
-  if base_var:
-    for n in walk_no_nested(mt):
-      if isinstance(n, ast.If) and isinstance(n.test, ast.Compare) and \
-          len(n.test.ops) == 1 and isinstance(n.test.ops[0], ast.Eq) and \
-          {dotted(n.test.left), dotted(n.test.comparators[0])} == {"name", base_var} \
-          and isinstance(n.body[-1], ast.Return) and \
-          try_fold(n.body[-1].value) is True:
-        # must be at function level (not nested under another condition)
-        if dmod.parent.get(n) is mt:
-          arm = n
+  compares = [n for n in walk_no_nested(mt) if isinstance(n, ast.Compare)
+              and len(n.ops) == 1 and isinstance(n.ops[0], ast.Eq)
+              and {dotted(n.left), dotted(n.comparators[0])} == {"name", base_var}]
+  for n in walk_no_nested(mt):
+    if isinstance(n, ast.If) and n.test in compares and \
+        isinstance(n.body[-1], ast.Return) and \
+        try_fold(n.body[-1].value) is True and dmod.parent.get(n) is mt:
+      arm = n
+  if arm is None and compares:
+    raise AnalysisError(
+        "matches_type: comparison with the target's base name is present but "
+        "not as a top-level `if name == base: return True`")
   ctx.check(arm is not None, "matches_type:bare-name", DEFS,
             arm.lineno if arm else mt.lineno,
             "Definitions.matches_type must accept a bare name equal to the "
@@ -600,6 +608,10 @@ def r5_3(ctx):
         isinstance(n.body[-1], ast.Return) and \
         src(n.body[-1].value) == "pytd.NothingType()":
       ok = True
+  if not ok and any(_const_str(n) == nothing for n in ast.walk(rt)):
+    raise AnalysisError(
+        f"resolve_type mentions {nothing!r} but not as "
+        "`if name == <lit>: return pytd.NothingType()`")
   ctx.check(ok, "spelling:nothing", DEFS, rt.lineno,
             f"printer spells NothingType as {nothing!r}; "
             "Definitions.resolve_type must map that name to pytd.NothingType()",
@@ -621,6 +633,10 @@ def r5_3(ctx):
     raise AnalysisError("VisitSignature: return-type alias arm not found")
   tn = stub_toplevel(ctx, TYPING)
   val = tn.get(alias)
+  for _ in range(5):  # NoReturn-style alias chains
+    if isinstance(val, ast.Name) and val.id != nothing and \
+        isinstance(tn.get(val.id), ast.Name):
+      val = tn[val.id]
   ok = cmp_lit == nothing and isinstance(val, ast.Name) and val.id == nothing
   ctx.check(ok, f"spelling:{alias}", PRINTER, vs.lineno,
             f"a {cmp_lit!r} return type is printed as typing.{alias}; typing.pytd "
@@ -652,6 +668,10 @@ def r5_3(ctx):
              _const_str(n.body[-1].value.args[0]))
       break
   host = type(None).__name__
+  if got is None and any(_const_str(n) == host for n in ast.walk(vp)):
+    raise AnalysisError(
+        f"visit_Pyval mentions {host!r} but not as "
+        "`if node.type == <lit>: return pytd.NamedType(<lit>)`")
   ctx.check(got == (host, none_name), "spelling:None", PARSER, vp.lineno,
             f"printer abbreviates {none_name!r} to None; the parser must turn "
             f"the constant None (Pyval type {host!r}) into "
@@ -682,7 +702,7 @@ def r5_6(ctx):
 
 # -- R5.4 ------------------------------------------------------------------------
 
-@rule("R5.4", "C05", floor=6)
+@rule("R5.4", "C05", floor=7)
 def r5_4(ctx):
   """Keyword mangling f-string and un-mangling regex agree."""
   mod = get_module(ctx, PARSER)
@@ -740,9 +760,9 @@ def r5_4(ctx):
             f"mangling writes suffix {suffix!r}, the regex expects {rx_suffix!r}",
             facts)
   gd = parsed.state.groupdict
-  ok = (len(middle) == 1 and middle[0][0] is _sre_parser.SUBPATTERN and
-        (gname in gd if isinstance(gname, str) else gname == middle[0][1][0])
-        and (gd.get(gname, gname) == middle[0][1][0]))
+  gindex = gd.get(gname) if isinstance(gname, str) else gname
+  ok = (len(middle) == 1 and middle[0][0] is _sre_parser.SUBPATTERN
+        and gindex is not None and gindex == middle[0][1][0])
   ctx.check(ok, "mangle:group", PARSER, back.lineno,
             f"the text between prefix and suffix must be exactly the group "
             f"that is returned (group {gname!r}, groups {dict(gd)})", facts)
@@ -780,7 +800,6 @@ def r5_4(ctx):
 
 def _straight_defs(fn):
   """name -> [value exprs in order] for a straight-line function body."""
-  env = {}
   order = []
   for st in fn.body:
     if isinstance(st, ast.Expr) and isinstance(st.value, ast.Constant):
@@ -802,7 +821,7 @@ def _visit_of(call, visitor_names):
   return None
 
 
-@rule("R5.5", "C05", floor=7)
+@rule("R5.5", "C05", floor=8)
 def r5_5(ctx):
   """Fixpoint witness wiring."""
   pmod = get_module(ctx, PARSER)
@@ -1070,6 +1089,180 @@ def r5_8(ctx):
               {"parser_kinds": list(kinds), "kind_to_class": kind_to_cls})
 
 
+# -- R5.9 ------------------------------------------------------------------------
+
+def _root_name(node):
+  while isinstance(node, (ast.Subscript, ast.Attribute, ast.Call)):
+    node = node.func if isinstance(node, ast.Call) else node.value
+  return node.id if isinstance(node, ast.Name) else None
+
+
+@rule("R5.9", "C05", floor=6)
+def r5_9(ctx):
+  """Printer decisions taken on already-printed child text are content-safe.
+
+  Inside Visit* methods the fields of `node` are the *printed strings* of the
+  children.  (i) Tuple-unpacking an unbounded str.split of such text raises
+  ValueError as soon as the text contains the separator once more (type text
+  may: Literal strings, Annotated metadata).  (ii) VisitCallableType must pick
+  the unbracketed `Callable[Concatenate[..], R]` / `Callable[P, R]` forms by
+  node kind or exact name, not by a substring of the first argument's text.
+  """
+  pmod = get_module(ctx, PRINTER)
+  n = 0
+  for st in ast.walk(pmod.tree):
+    if not (isinstance(st, ast.Assign) and len(st.targets) == 1
+            and isinstance(st.targets[0], ast.Tuple)
+            and isinstance(st.value, ast.Call)
+            and isinstance(st.value.func, ast.Attribute)
+            and st.value.func.attr in ("split", "rsplit")):
+      continue
+    call = st.value
+    k = len(st.targets[0].elts)
+    if any(isinstance(e, ast.Starred) for e in st.targets[0].elts):
+      continue  # a starred target absorbs any number of fields
+    ms = call.args[1] if len(call.args) > 1 else kwarg(call, "maxsplit")
+    bound = try_fold(ms) if ms is not None else None
+    fn = pmod.enclosing_function(st)
+    n += 1
+    ctx.check(bound == k - 1,
+              f"unpack-split:{getattr(fn, 'name', '<module>')}:{src(call.func.value)}",
+              PRINTER, st.lineno,
+              f"`{src(st)}` unpacks {k} fields from an unbounded "
+              f"{call.func.attr}: the text may contain the separator more than "
+              f"{'once' if k == 2 else str(k - 1) + ' times'} (printed types can "
+              "contain any literal text), which raises ValueError",
+              {"fields": k, "maxsplit": bound, "separator": try_fold(call.args[0])
+               if call.args else None})
+  if n == 0:
+    raise AnalysisError("printer.py: no tuple-unpacked split calls found")
+  fn = pmod.func("PrintVisitor.VisitCallableType")
+  heads = [x for x in fn.body if isinstance(x, ast.If)]
+  if len(heads) != 1:
+    raise AnalysisError("VisitCallableType: if/elif chain not found")
+  arms, _ = if_chain(heads[0])
+  seen = set()
+  for test, _body in arms:
+    text = src(test)
+    if "_paramspec_names" in text:
+      label = "paramspec-form"
+    elif "Concatenate" in text:
+      label = "concatenate-form"
+    else:
+      raise AnalysisError(f"VisitCallableType: arm `{text}` not understood")
+    if label in seen:
+      raise AnalysisError(f"VisitCallableType: two {label} arms")
+    seen.add(label)
+    unsafe, safe = [], []
+    for c in ast.walk(test):
+      if isinstance(c, ast.Compare) and any(isinstance(o, (ast.In, ast.NotIn))
+                                            for o in c.ops):
+        if len(c.ops) != 1:
+          raise AnalysisError(f"VisitCallableType: chained `in`: {src(c)}")
+        right = c.comparators[0]
+        if _root_name(right) == "node":
+          unsafe.append(src(c))   # substring of a printed child
+        else:
+          safe.append(src(c))     # membership in a set of names
+      elif isinstance(c, ast.Call) and isinstance(c.func, ast.Attribute) and \
+          _root_name(c.func.value) == "node" and \
+          c.func.attr in ("startswith", "endswith", "find", "index", "count"):
+        raise AnalysisError(
+            f"VisitCallableType: text predicate {src(c)} not understood")
+      elif isinstance(c, ast.Call) and (dotted(c.func) or "").startswith("re."):
+        raise AnalysisError(
+            f"VisitCallableType: regex predicate {src(c)} not understood")
+      elif isinstance(c, ast.Call) and dotted(c.func) == "isinstance":
+        safe.append(src(c))
+    ctx.check(not unsafe and bool(safe), f"VisitCallableType:{label}", PRINTER,
+              test.lineno,
+              f"the {label} of Callable is chosen by a substring test on the "
+              f"printed first argument ({unsafe}): any type whose text contains "
+              "that substring (a class named ...Concatenate..., a Literal "
+              "string) is printed without the argument-list brackets",
+              {"unsafe": unsafe, "safe": safe})
+  if seen != {"paramspec-form", "concatenate-form"}:
+    raise AnalysisError(f"VisitCallableType: arms {sorted(seen)}")
+
+
+# -- R5.10 -----------------------------------------------------------------------
+
+def _mentions(expr, tainted):
+  for n in ast.walk(expr):
+    if isinstance(n, ast.Name) and n.id in tainted:
+      return True
+    if isinstance(n, ast.Attribute) and dotted(n) == "node.keywords":
+      return True
+  return False
+
+
+@rule("R5.10", "C05", floor=1)
+def r5_10(ctx):
+  """The functional TypedDict form keeps the class keywords output.py emits.
+
+  VisitClass prints a TypedDict whose keys are not identifiers as
+  `X = TypedDict('X', {...})`; the reader accepts `total=` there
+  (Definitions.new_typed_dict) and output._typed_dict_to_def emits it, so the
+  functional form has to print node.keywords as the class form does.
+  """
+  emitted = {k: v for k, v in emitted_class_keywords(ctx).items()
+             if v[0] == "_typed_dict_to_def"}
+  if not emitted:
+    raise AnalysisError("output._typed_dict_to_def emits no class keywords")
+  dmod = get_module(ctx, DEFS)
+  ntd = dmod.func("Definitions.new_typed_dict")
+  reader_kws = set()
+  for c in ast.walk(ntd):
+    if isinstance(c, ast.Compare) and dotted(c.left) == "k.arg" and len(c.ops) == 1:
+      v = try_fold(c.comparators[0])
+      if isinstance(c.ops[0], ast.NotEq) and isinstance(v, str):
+        reader_kws.add(v)
+      elif isinstance(c.ops[0], ast.NotIn) and isinstance(v, (tuple, list, set)):
+        reader_kws |= set(v)
+  if not reader_kws:
+    raise AnalysisError("new_typed_dict: accepted keyword test not understood")
+  pmod = get_module(ctx, PRINTER)
+  fn = pmod.func("PrintVisitor.VisitClass")
+  rets = [n for n in walk_no_nested(fn) if isinstance(n, ast.Return)
+          and isinstance(n.value, ast.JoinedStr)
+          and any("TypedDict(" in str(v.value) for v in n.value.values
+                  if isinstance(v, ast.Constant))]
+  if len(rets) != 1:
+    raise AnalysisError("VisitClass: functional TypedDict return not found")
+  tainted, changed = set(), True
+  while changed:
+    changed = False
+    for n in walk_no_nested(fn):
+      new = []
+      if isinstance(n, (ast.Assign, ast.AugAssign)) and _mentions(n.value, tainted):
+        tg = n.targets if isinstance(n, ast.Assign) else [n.target]
+        new = [x.id for t in tg for x in ast.walk(t) if isinstance(x, ast.Name)]
+      elif isinstance(n, ast.For) and _mentions(n.iter, tainted):
+        new = [x.id for x in ast.walk(n.target) if isinstance(x, ast.Name)]
+      elif isinstance(n, ast.Call) and isinstance(n.func, ast.Attribute) and \
+          n.func.attr in ("append", "extend") and \
+          isinstance(n.func.value, ast.Name) and \
+          any(_mentions(a, tainted) for a in n.args):
+        new = [n.func.value.id]
+      for x in new:
+        if x not in tainted:
+          tainted.add(x)
+          changed = True
+  prints_kw = _mentions(rets[0].value, tainted)
+  for k, (where, line) in sorted(emitted.items()):
+    if k not in reader_kws:
+      continue  # rejected by the reader anyway: R5.7's business
+    ctx.check(prints_kw, f"functional-typeddict:keyword:{k}", PRINTER,
+              rets[0].lineno,
+              f"output.{where} emits the class keyword {k!r} and the reader "
+              f"accepts it in TypedDict(name, fields, {k}=...), but the "
+              "functional form printed by VisitClass does not include "
+              "node.keywords: the keyword is lost (and its Literal import is "
+              "left behind)",
+              {"reader_accepts": sorted(reader_kws),
+               "return": src(rets[0].value)[:80]})
+
+
 # -- sensitivity suite ---------------------------------------------------------------
 
 VARIANTS = [
@@ -1226,4 +1419,37 @@ VARIANTS = [
      "expect": "silent",
      "old": "{\"bound\", \"covariant\", \"contravariant\", \"default\"}",
      "new": "{\"default\", \"bound\", \"covariant\", \"contravariant\", \"infer_variance\"}"},
+    # R5.9
+    {"name": "unbounded-rsplit-unpacked", "rule": "R5.9", "file": PRINTER,
+     "expect": "fire",
+     "old": "    prefix, suffix = name.rsplit(\".\", 1)\n    while prefix:",
+     "new": "    prefix, suffix = name.rsplit(\".\")\n    while prefix:"},
+    {"name": "paramspec-form-by-substring", "rule": "R5.9", "file": PRINTER,
+     "expect": "fire",
+     "old": "    if len(node.args) == 1 and node.args[0] in self._paramspec_names:",
+     "new": "    if len(node.args) == 1 and any(\n        p in node.args[0] for p in self._paramspec_names\n    ):"},
+    {"name": "twin-typeddict-split-bounded", "rule": "R5.9", "file": PRINTER,
+     "expect": "silent",
+     "old": "        name, typ = c.split(\": \")", "new": "        name, typ = c.split(\": \", 1)"},
+    {"name": "twin-concatenate-form-by-node-kind", "rule": "R5.9", "file": PRINTER,
+     "expect": "silent",
+     "old": "    elif node.args and \"Concatenate\" in node.args[0]:",
+     "new": "    elif node.args and isinstance(\n        self.old_node.args[0], pytd.Concatenate\n    ):"},
+    {"name": "callable-arm-unknown-text-predicate", "rule": "R5.9", "file": PRINTER,
+     "expect": "error",
+     "old": "    elif node.args and \"Concatenate\" in node.args[0]:",
+     "new": "    elif node.args and node.args[0].startswith(\"Concatenate[\"):"},
+    # R5.10
+    {"name": "typeddict-gains-closed-keyword-everywhere-but-printer", "rule": "R5.10",
+     "expect": "fire",
+     "edits": [
+         (OUTPUT, "      keywords.append((\"total\", pytd.Literal(False)))",
+          "      keywords.append((\"total\", pytd.Literal(False)))\n      keywords.append((\"closed\", pytd.Literal(True)))"),
+         (CLASSDEF, "    if keyword not in (\"metaclass\", \"total\"):",
+          "    if keyword not in (\"metaclass\", \"total\", \"closed\"):"),
+         (DEFS, "      if k.arg != \"total\":", "      if k.arg not in (\"total\", \"closed\"):")]},
+    {"name": "twin-functional-form-prints-keywords", "rule": "R5.10", "file": PRINTER,
+     "expect": "silent",
+     "old": "        return f\"{node.name} = TypedDict('{node.name}', {fields})\"",
+     "new": "        kws = \"\".join(f\", {k}={v}\" for k, v in node.keywords)\n        return f\"{node.name} = TypedDict('{node.name}', {fields}{kws})\""},
 ]
